@@ -1,5 +1,6 @@
 import GoatProofs.Lemmas.C02Verify
 import GoatProofs.C01
+import GoatProofs.Lemmas.C02Time
 /-
 C02 — everything the library signs verifies again and yields the original content.
 
@@ -311,6 +312,75 @@ theorem jwt_sign_parse_front_roundtrip (o : Oracle) (cfg : Cfg) (hp hp' : Header
   cases hq : o ⟨"c01.jwt.parseClaims", [.bytes pl]⟩ <;> simp [hq, Wire.isNone] at hparse ⊢
 
 end Model.JWT
+
+/-! ## time claims of a JWT (exp, nbf, iat): every nanosecond, not only whole seconds
+
+`jwt_sign_parse_front_roundtrip` treats the claims codec as ONE abstract step, so by itself it says
+nothing about how a `time.Time` is written.  The codec is property C10's
+(`Model.NumericDate` = internal/jsonutils/numeric_date.go, `Model.JWTClaims`); C10's
+`numeric_date_roundtrip_integral` is proved for whole seconds only.  For C02 the fractional case
+is covered by the two theorems below:
+
+* `numeric_date_text_exact` (∀ instant, ∀ nanosecond): the text `MarshalJSON` emits denotes exactly the
+  instant — in particular the leading zeros of the fraction are kept (`0.0625`, never `0.625`);
+* `numeric_date_roundtrip_classes`: goat's big.Float decoder applied to the emitted text gives the
+  instant back, kernel-evaluated on every magnitude class of the nanosecond part (0, 10^k, 10^k ± 1,
+  trailing-zero patterns, 62_500_000, 99_999_999, 100_000_000, 999_999_999 …) × seconds {0, ±1, −2,
+  ±1.7·10^9, the accepted bounds ±253402300799 and one inside}.
+Still open (as in C10): `decode (encode t) = t` for EVERY fractional `t` — it needs the error analysis
+of the 128-bit big.Float parse/multiply and the float64 truncation; tied by the harness stream. -/
+namespace C02Time
+open Model.NumericDate
+
+/-- string-level form: what `NumericDate{t}.MarshalJSON()` returns denotes exactly `t` -/
+theorem numeric_date_text_exact (t : Int) (s : String) (h : Model.NumericDate.encode t = .ok s) :
+    nanosOfChars s.toList = some t := by
+  unfold Model.NumericDate.encode at h
+  cases he : encodeChars t with
+  | ok cs =>
+    rw [he] at h
+    simp only [Outcome.bind] at h
+    injection h with h
+    subst h
+    rw [String.toList_ofList]
+    exact numericDate_text_exact t cs he
+  | err c => rw [he] at h; cases h
+  | panic p => rw [he] at h; cases h
+
+/-- the "simplified" printer that trims trailing zeros and prints the rest as an integer loses the
+    leading zeros of the fraction: its output for 1700000000.0625 denotes another instant -/
+example : nanosOfChars "1700000000.0625".toList = some 1700000000062500000 := by decide
+example : nanosOfChars "1700000000.625".toList ≠ some 1700000000062500000 := by decide
+example : encodeChars 1700000000062500000 = .ok "1700000000.0625".toList := by rfl
+example : encodeChars (-1500000000) = .ok "-1.5".toList := by rfl
+
+/-- nanosecond parts of every magnitude class -/
+def nsClasses : List Int :=
+  [0, 1, 9, 10, 11, 99, 100, 101, 999, 1000, 1001, 9999, 10000, 10001, 99999, 100000, 100001,
+   999999, 1000000, 1000001, 9999999, 10000000, 10000001, 99999999, 100000000, 100000001,
+   62500000, 120000000, 500000000, 123456789, 999999990, 999999999, 900000000, 1200]
+
+/-- whole-second parts: around the epoch, typical, and the accepted bounds -/
+def secClasses : List Int :=
+  [0, 1, -1, -2, 1700000000, -1700000000, 253402300799, 253402300798, -253402300798, -253402300799]
+
+def classInstants : List Int :=
+  secClasses.flatMap (fun s => nsClasses.map (fun n => s * 1000000000 + n))
+
+def roundTrips (t : Int) : Bool :=
+  match (encodeChars t).bind decodeChars with
+  | .ok v => v == t
+  | _ => false
+
+/-- encoder + goat's big.Float decoder give the instant back on every magnitude class
+    (340 instants, kernel evaluation of the model) -/
+theorem numeric_date_roundtrip_classes : classInstants.all roundTrips = true := by decide +kernel
+
+/-- below the lower bound the encoder refuses (no text is emitted) -/
+example : (match encodeChars (-253402300800 * 1000000000 - 1) with | .err _ => true | _ => false) = true := by
+  decide +kernel
+
+end C02Time
 
 /-! ## non-vacuity: the hypotheses of the round-trip theorems are satisfiable -/
 namespace C02.Example
